@@ -25,6 +25,144 @@ func checkC03(p *Program, r *Report) {
 	checkBulkOps(p, r, "C03")
 	checkUnsafe(p, r)
 	checkProtocol(p, r, []string{"libopenwater"}, "R03.2", true)
+	checkBufferExtents(p, r)
+}
+
+// checkBufferExtents (R03.3): the C entry point receives every caller buffer together with its own extents (the
+// integer parameters that follow the pointer in the signature). Each wrapping of a buffer as an array uses exactly
+// those extents, in order: an output buffer shaped with the run's length instead of its own series length packs the
+// rows at the wrong offsets of the caller's memory, although every write stays inside it.
+func checkBufferExtents(p *Program, r *Report) {
+	r.Rule("R03.3", "each caller buffer is wrapped with its own extents: in the C entry points, the shape handed to the C-array constructor for a pointer parameter P consists, element by element, of (conversions of) the integer parameters that follow P in the signature, in that order — directly or through a module helper that is passed them")
+	pk := p.SSAPkg[modPath+"/libopenwater"]
+	if pk == nil {
+		r.Undecided("R03.3", "libopenwater", "-", "package not loaded")
+		return
+	}
+	n := 0
+	eff := nil2eff(p)
+	isCInt := func(t types.Type) bool {
+		b, ok := t.Underlying().(*types.Basic)
+		return ok && b.Info()&types.IsInteger != 0
+	}
+	for _, fn := range p.PkgFuncs("libopenwater") {
+		if fn.Parent() != nil || len(fn.Blocks) == 0 {
+			continue
+		}
+		// pointer parameters and the extents that follow them
+		extents := map[*ssa.Parameter][]*ssa.Parameter{}
+		for i, prm := range fn.Params {
+			pt, ok := prm.Type().Underlying().(*types.Pointer)
+			if !ok {
+				continue
+			}
+			if b, ok := pt.Elem().Underlying().(*types.Basic); !ok || b.Info()&types.IsFloat == 0 {
+				continue
+			}
+			for j := i + 1; j < len(fn.Params) && isCInt(fn.Params[j].Type()); j++ {
+				extents[prm] = append(extents[prm], fn.Params[j])
+			}
+		}
+		if len(extents) == 0 {
+			continue
+		}
+		paramOf := func(v ssa.Value) *ssa.Parameter {
+			for d := 0; d < 6 && v != nil; d++ {
+				switch x := v.(type) {
+				case *ssa.Parameter:
+					return x
+				case *ssa.Convert:
+					v = x.X
+				case *ssa.ChangeType:
+					v = x.X
+				default:
+					if o := origin1(v); o != nil && o != v {
+						v = o
+					} else {
+						return nil
+					}
+				}
+			}
+			return nil
+		}
+		// wrap sites: constructor calls in fn, or in a helper of the package called from fn
+		type site struct {
+			ctor  ssa.CallInstruction
+			bind  map[*ssa.Parameter]ssa.Value // helper parameter → argument in fn
+			where ssa.CallInstruction
+		}
+		var sites []site
+		scan := func(f *ssa.Function, bind map[*ssa.Parameter]ssa.Value, where ssa.CallInstruction) {
+			for _, c := range callsIn(f) {
+				callee := c.Common().StaticCallee()
+				if callee == nil || !strings.HasSuffix(callee.Name(), "CArray") || fnPkg(callee) == nil || relPkg(fnPkg(callee).Path()) != "data/cdata" || len(c.Common().Args) != 2 {
+					continue
+				}
+				w := where
+				if w == nil {
+					w = c
+				}
+				sites = append(sites, site{c, bind, w})
+			}
+		}
+		scan(fn, nil, nil)
+		for _, c := range callsIn(fn) {
+			h := c.Common().StaticCallee()
+			if h == nil || h == fn || fnPkg(h) != fnPkg(fn) || len(h.Blocks) == 0 || len(h.Params) != len(c.Common().Args) {
+				continue
+			}
+			bind := map[*ssa.Parameter]ssa.Value{}
+			for i, q := range h.Params {
+				bind[q] = c.Common().Args[i]
+			}
+			scan(h, bind, c)
+		}
+		resolve := func(v ssa.Value, bind map[*ssa.Parameter]ssa.Value) *ssa.Parameter {
+			prm := paramOf(v)
+			if prm == nil {
+				return nil
+			}
+			if bind != nil {
+				if a, ok := bind[prm]; ok {
+					return paramOf(a)
+				}
+			}
+			return prm
+		}
+		k := 0
+		for _, st := range sites {
+			buf := resolve(st.ctor.Common().Args[0], st.bind)
+			want, isBuf := extents[buf]
+			if buf == nil || !isBuf {
+				continue
+			}
+			k++
+			n++
+			key := fmt.Sprintf("%s:wrap:%s#%d", FuncKey(fn), buf.Name(), k)
+			bad := ""
+			for d, wp := range want {
+				vals, _, unk := vecElemAt(eff, st.ctor.Common().Args[1], int64(d), st.ctor)
+				if unk != "" || len(vals) != 1 {
+					bad = fmt.Sprintf("extent %d of the shape is undetermined", d)
+					break
+				}
+				if got := resolve(vals[0], st.bind); got != wp {
+					name := "a computed value"
+					if got != nil {
+						name = "`" + got.Name() + "`"
+					}
+					bad = fmt.Sprintf("extent %d of the array laid over `%s` is %s, not the buffer's own `%s`", d, buf.Name(), name, wp.Name())
+					break
+				}
+			}
+			if bad != "" {
+				r.Fail("R03.3", key, p.Pos(st.where.Pos()), bad+": rows of the caller's buffer are then addressed with another buffer's stride — results land at the wrong offsets (still inside the buffer, so nothing crashes)")
+			} else {
+				r.OK("R03.3", fmt.Sprintf("%s: `%s` wrapped with the %d extents that follow it in the signature", FuncKey(fn), buf.Name(), len(want)))
+			}
+		}
+	}
+	r.Floor("R03.3", "wrapped caller buffers", n, 4)
 }
 
 func isUnsafePointer(t types.Type) bool {
